@@ -230,10 +230,13 @@ def scan_forbidden():
 
 def build_props(prop, timeout=1800):
     """Step 1.  Returns dict(obligations, discharged, theorems, assumptions, problems)."""
-    regen_makefile()
+    import fcntl
     names = theorem_names(prop)
     problems = []
-    rc, out = sh(["timeout", str(timeout), "make", f"-j{NCPU}", f"props/{prop}.vo"], cwd=COQ)
+    with open(COQ / ".build.lock", "w") as lk:      # several checks may run concurrently
+        fcntl.flock(lk, fcntl.LOCK_EX)
+        regen_makefile()
+        rc, out = sh(["timeout", str(timeout), "make", f"-j{NCPU}", f"props/{prop}.vo"], cwd=COQ)
     built = rc == 0
     if not built:
         problems.append({"kind": "proof-build-failed", "detail": out[-3000:]})
